@@ -23,6 +23,7 @@ def aKeyLen := "len(base64.StdEncoding.DecodeString(strings.TrimSpace(r.Header.V
 def envVCR (proto conn upg get ver13 : Bool) (nKeys : Nat) (decErr len16 : Bool) : Env :=
   mkEnv [(aProto, proto), (aConnTok, conn), (aUpgTok, upg), (aNotGet, !get), (aNot13, !ver13),
     (aKeys, nKeys != 0), (aManyKeys, decide (1 < nKeys)), (aKeyErr, decErr), (aKeyLen, !len16)]
+    [("len(r.Header.Values(\"Sec-WebSocket-Key\"))", (nKeys : Int))]
 
 def setConnUpg : List String := ["w.Header().Set(Connection,Upgrade)", "w.Header().Set(Upgrade,websocket)"]
 
@@ -51,9 +52,9 @@ def repReq (proto conn upg get ver13 : Bool) (nKeys : Nat) (decErr len16 : Bool)
 
 def envAccept (vErr skip oErr badPat hj sub defl gin hjErr : Bool) : Env :=
   mkEnv [("verifyClientRequest:err!=nil", vErr), ("opts.InsecureSkipVerify", skip), ("authenticateOrigin:err!=nil", oErr),
-    ("errors.Is(err,filepath.ErrBadPattern)", badPat), ("w.(http.Hijacker):ok", hj),
-    ("selectSubprotocol(r,opts.Subprotocols)!=\"\"", sub), ("selectDeflate:ok", defl),
-    ("w.(interface{WriteHeaderNow()}):ok", gin), ("w.(http.Hijacker)#0.Hijack:err!=nil", hjErr)]
+    ("errors.Is(err,filepath.ErrBadPattern)", badPat), ("w.(http.Hijacker)#1", hj),
+    ("selectSubprotocol(r,opts.Subprotocols)!=\"\"", sub), ("selectDeflate#1", defl),
+    ("w.(interface{WriteHeaderNow()})#1", gin), ("w.(http.Hijacker)#0.Hijack:err!=nil", hjErr)]
 
 def acceptExpected (vErr skip oErr badPat hj sub defl hjErr : Bool) : Res :=
   if vErr then errRes ["verifyClientRequest", "http.Error(_,_,_)"]
@@ -73,7 +74,7 @@ def acceptExpected (vErr skip oErr badPat hj sub defl hjErr : Bool) : Res :=
 def envOrigin (has parseErr same more mErr matched hostEmpty : Bool) : Env :=
   mkEnv [("r.Header.Get(\"Origin\")!=\"\"", has), ("url.Parse:err!=nil", parseErr),
     ("strings.EqualFold(r.Host,url.Parse(r.Header.Get(\"Origin\"))#0.Host)", same), ("more(originHosts)", more),
-    ("match:err!=nil", mErr), ("match:matched", matched), ("url.Parse(r.Header.Get(\"Origin\"))#0.Host!=\"\"", !hostEmpty)]
+    ("match:err!=nil", mErr), ("match#0", matched), ("url.Parse(r.Header.Get(\"Origin\"))#0.Host!=\"\"", !hostEmpty)]
 
 /-- no Origin: allowed; unparsable: refused; same host (case-insensitively): allowed; otherwise each pattern in turn —
 a malformed pattern refuses, a match allows —, and when the patterns are used up the origin is refused. -/
@@ -88,7 +89,7 @@ def originExpected (has parseErr same more mErr matched : Bool) : Res :=
 /-! ### selectDeflate / acceptDeflate (C14), one loop iteration each -/
 
 def envSelectDeflate (mode : Nat) (more pmd ok : Bool) : Env :=
-  mkEnv [("more(extensions)", more), ("ext.name!=\"permessage-deflate\"", !pmd), ("acceptDeflate:ok", ok)] [("mode", (mode : Int))]
+  mkEnv [("more(extensions)", more), ("elem(extensions).name!=\"permessage-deflate\"", !pmd), ("acceptDeflate#1", ok)] [("mode", (mode : Int))]
 
 def selectDeflateExpected (mode : Nat) (more pmd ok : Bool) : Res :=
   if mode = 0 then retRes [] "false"
@@ -110,15 +111,15 @@ def PK.str : PK → Str
   | .cmwbVal v => s ("client_max_window_bits=" ++ toString v) | .cmwbBad => s "client_max_window_bits=7"
   | .other => s "x_unknown"
 
-def cmwbPrefix := "strings.TrimPrefix(p,\"client_max_window_bits=\")"
+def cmwbPrefix := "strings.TrimPrefix(elem(ext.params),\"client_max_window_bits=\")"
 
 def envAcceptDeflate (more seen : Bool) (k : PK) : Env :=
   mkEnv ([("more(ext.params)", more), ("make(map[string]bool,len(ext.params))[name]", seen),
-    ("p!=\"client_no_context_takeover\"", k != .cnct), ("p!=\"server_no_context_takeover\"", k != .snct),
-    ("p!=\"client_max_window_bits\"", k != .cmwb), ("p!=\"server_max_window_bits=15\"", k != .smwb15),
-    ("strings.HasPrefix(p,\"client_max_window_bits=\")", match k with | .cmwbVal _ => true | .cmwbBad => true | _ => false)]
+    ("elem(ext.params)!=\"client_no_context_takeover\"", k != .cnct), ("elem(ext.params)!=\"server_no_context_takeover\"", k != .snct),
+    ("elem(ext.params)!=\"client_max_window_bits\"", k != .cmwb), ("elem(ext.params)!=\"server_max_window_bits=15\"", k != .smwb15),
+    ("strings.HasPrefix(elem(ext.params),\"client_max_window_bits=\")", match k with | .cmwbVal _ => true | .cmwbBad => true | _ => false)]
     ++ [8, 9, 10, 11, 12, 13, 14, 15].map (fun v => (cmwbPrefix ++ "!=\"" ++ toString v ++ "\"", k != .cmwbVal v)))
-    [("strings.IndexByte(p,'=')", match k with | .smwb15 => 22 | .cmwbVal _ => 22 | .cmwbBad => 22 | _ => -1)]
+    [("strings.IndexByte(elem(ext.params),'=')", match k with | .smwb15 => 22 | .cmwbVal _ => 22 | .cmwbBad => 22 | _ => -1)]
 
 /-- what the handshake model's acceptDeflate does with a one-parameter offer of this kind, as a step of the loop. -/
 def acceptDeflateExpected (more seen : Bool) (k : PK) : Res :=
@@ -150,7 +151,7 @@ def vsrExpected (status : Nat) (conn upg acceptBad subErr extErr : Bool) : Res :
 
 def envVSub (has more eq : Bool) : Env :=
   mkEnv [("resp.Header.Get(\"Sec-WebSocket-Protocol\")!=\"\"", has), ("more(subprotos)", more),
-    ("strings.EqualFold(sp2,resp.Header.Get(\"Sec-WebSocket-Protocol\"))", eq)]
+    ("strings.EqualFold(elem(subprotos),resp.Header.Get(\"Sec-WebSocket-Protocol\"))", eq)]
 
 /-- no subprotocol in the response: fine; otherwise it must be one of those requested. -/
 def vsubExpected (has more eq : Bool) : Res :=
@@ -163,8 +164,8 @@ def RK.all : List RK := [.cnct, .snct, .smwb, .other]
 def envVSE (any notPMD many offered more : Bool) (k : RK) : Env :=
   mkEnv [("len(websocketExtensions(h))!=0", any), ("websocketExtensions(h)[0].name!=\"permessage-deflate\"", notPMD),
     ("1<len(websocketExtensions(h))", many), ("copts!=nil", offered), ("more(websocketExtensions(h)[0].params)", more),
-    ("p!=\"client_no_context_takeover\"", k != .cnct), ("p!=\"server_no_context_takeover\"", k != .snct),
-    ("strings.HasPrefix(p,\"server_max_window_bits=\")", k == .smwb)]
+    ("elem(websocketExtensions(h)[0].params)!=\"client_no_context_takeover\"", k != .cnct), ("elem(websocketExtensions(h)[0].params)!=\"server_no_context_takeover\"", k != .snct),
+    ("strings.HasPrefix(elem(websocketExtensions(h)[0].params),\"server_max_window_bits=\")", k == .smwb)]
 
 /-- no extension in the response: no compression; anything other than exactly one permessage-deflate that was offered:
 refused; each parameter: the two takeover flags are recorded, `server_max_window_bits=…` is tolerated, anything else is
